@@ -166,8 +166,17 @@ def rule_tracker(ctx):
     ev_enum = 'pie::tracker::event::Event'
     rec = [b for b in F.bodies.values() if b.impl_trait == TRK and b.impl_self == 'pie::tracker::event::EventTracker' and b.kind == 'AssocFn']
     R.floor('W5', 'EventTracker overrides', len(rec), 10, props=P)
+    # helpers of the recorder that push their argument onto the event list on every path
+    push_helpers = {}
+    for hb in F.bodies.values():
+        if hb.impl_self == 'pie::tracker::event::EventTracker' and not hb.impl_trait and hb.kind == 'AssocFn' and hb.argc == 2:
+            hp = [c for c in hb.find_calls(lambda c: c.qname == 'std::vec::Vec::push' and ctx.has_field(hb.orig_operand(c.args[0]), 'events')
+                                           and all(o.kind == 'arg' and o.key == 2 for o in hb.orig_operand(c.args[1])))]
+            if hp and not any(r_ in hb.reach([0], avoid=lambda n: n in {c.bb for c in hp}) for r_ in hb.returns()):
+                push_helpers[hb.id] = hb
     for b in rec:
-        pushes = [c for c in b.find_calls(lambda c: c.qname == 'std::vec::Vec::push' and ctx.has_field(b.orig_operand(c.args[0]), 'events'))]
+        pushes = [c for c in b.find_calls(lambda c: (c.qname == 'std::vec::Vec::push' and ctx.has_field(b.orig_operand(c.args[0]), 'events'))
+                                          or (F.callee_body(c) is not None and F.callee_body(c).id in push_helpers))]
         good = len(pushes) == 1
         why = 'expected exactly one push onto the event list'
         if good:
